@@ -52,12 +52,19 @@ def reference(pts, knees_idx, segs, wide, npts, extremes):
 
 
 @core.safe_case
-def one(ctx, variant, pts, reduced, knees, tx, ty, extremes, family):
+def one(ctx, variant, pts, reduced, knees, tx, ty, extremes, family, int_dtype=None):
     import kneeliverse.postprocessing as pp
     import kneeliverse.rdp as rdp
     n = len(pts)
     d = ctx.get_driver()
-    case = dict(variant=variant, points=pts.tolist(), reduced=reduced, knees=knees, tx=tx, ty=ty, extremes=extremes)
+    if int_dtype is None:
+        int_dtype = bool(gen.int_ok(pts) and ctx.rng.random() < 0.35)
+    case = dict(variant=variant, points=pts.tolist(), reduced=reduced, knees=knees, tx=tx, ty=ty, extremes=extremes, int_dtype=bool(int_dtype))
+    pts_f = pts
+    if int_dtype:
+        # an integral curve is also delivered as an int64 array to the REAL call; the reference decisions below use the float64 copy
+        ctx.tag('input:int64-dtype')
+        pts = pts.astype(np.int64)
     site = f'postprocessing.{variant}[extremes={extremes}]'
     red = np.array(reduced, dtype=int)
     try:
@@ -73,6 +80,7 @@ def one(ctx, variant, pts, reduced, knees, tx, ty, extremes, family):
         return
     if any(not (0 <= k < n) for k in out):
         ctx.fail('predicate', 'every-returned-index-valid', site, case, dict(out=out, n=n))
+    pts = pts_f
     if variant == 'add_points_even':
         segs = list(zip(reduced, reduced[1:]))
         knees_idx = [reduced[k] for k in knees]
@@ -123,6 +131,10 @@ def run(ctx):
             continue
         pts, vt = gen.magnitude(rng, pts, 0.3)
         fam += vt
+        if not vt and rng.random() < 0.12:
+            q = gen.bytecount_of(pts) if rng.random() < 0.5 else np.column_stack([pts[:, 0], np.floor(pts[:, 1] * 64)])
+            if np.ptp(q[:, 1]) > 0 and np.all(np.diff(q[:, 0]) > 0):
+                pts, fam = q, fam + '@integer'
         tx, ty = rng.choice([0.05, 0.1, 0.125, 0.02, 0.25, 0.5, 0.3, 0.005, 0.75]), rng.choice([0.05, 0.1, 0.01, 0.2, 0.0625, 0.5, 0.001])
         extremes = rng.random() < 0.5
         if rng.random() < 0.5:
@@ -147,4 +159,4 @@ def run(ctx):
 
 def replay(ctx, body):
     c = body['case']
-    one(ctx, c['variant'], np.array(c['points'], float), c['reduced'], c['knees'], c['tx'], c['ty'], c['extremes'], 'replay')
+    one(ctx, c['variant'], np.array(c['points'], float), c['reduced'], c['knees'], c['tx'], c['ty'], c['extremes'], 'replay', bool(c.get('int_dtype', False)))
